@@ -1,0 +1,43 @@
+//go:build verif
+
+// Contracts for the verif build tag (read by /verif/govc; comment-only).
+package server
+
+// ---------------------------------------------------------------------------
+// Quorum ack tracker (unit Q): the commit rule of the leader write pipeline.
+//
+// Invariant (sequential view, the fields are guarded by q.Mutex):
+//   requiredAcks == replicationFactor/2, replicationFactor <= 17 (BitSet has 16 bits);
+//   commit <= head; every tracked offset lies in (commit, head] (for RF > 1), has its own
+//   BitSet with fewer than requiredAcks bits; ack sets shrink with the offset (a cursor
+//   that acked o2 has acked every tracked o1 < o2).
+
+//@ define qInv(q *quorumAckTracker) bool = q.tracker != nil && q.requiredAcks == q.replicationFactor/2 && q.replicationFactor <= 17 && -1 <= q.commitOffset.v && q.commitOffset.v <= q.headOffset.v && q.headOffset.v < 4611686018427387904 && 0 <= q.cursorIdxGenerator && q.cursorIdxGenerator <= 16 && (forall k int :: 0 <= k && k < len(q.waitingRequests) ==> q.waitingRequests[k].callback != nil) && (forall o int64 :: inmap(q.tracker, o) ==> q.tracker[o] != nil && o <= q.headOffset.v && (q.requiredAcks > 0 ==> q.commitOffset.v < o && popcount16(q.tracker[o].bits) < q.requiredAcks)) && (forall o1 int64, o2 int64 :: inmap(q.tracker, o1) && inmap(q.tracker, o2) && o1 != o2 ==> q.tracker[o1] != q.tracker[o2]) && (forall o1 int64, o2 int64, j int :: inmap(q.tracker, o1) && inmap(q.tracker, o2) && o1 < o2 && 0 <= j && j < 16 && bit16(q.tracker[o2].bits, j) ==> bit16(q.tracker[o1].bits, j))
+
+//@ func quorumAckTracker.notifyCommitOffsetAdvanced
+//@ property C08 C01
+//@ requires q.commitOffset.v <= commitOffset
+//@ requires forall k int :: 0 <= k && k < len(q.waitingRequests) ==> q.waitingRequests[k].callback != nil
+//@ loop 0 invariant -1 <= rangeindex && len(q.waitingRequests) == old(len(q.waitingRequests)) - rangeindex - 1 && q.commitOffset.v == commitOffset
+//@ loop 0 invariant forall k int :: 0 <= k && k < len(q.waitingRequests) ==> q.waitingRequests[k].callback != nil
+//@ assert at call Callback.OnComplete#0: r.minOffset <= q.commitOffset.v
+//@ ensures q.commitOffset.v == commitOffset
+//@ ensures forall k int :: 0 <= k && k < len(q.waitingRequests) ==> q.waitingRequests[k].callback != nil
+//@ preserves fields(cursorAcker), fields(util.BitSet), fields(map[int64]*server/util.BitSet), q.headOffset.v, q.requiredAcks, q.replicationFactor, q.tracker, q.cursorIdxGenerator, q.closed
+
+//@ func cursorAcker.ack
+//@ property C08 C01
+//@ requires c.quorumTracker != nil && qInv(c.quorumTracker) && 0 <= c.cursorIdx && c.cursorIdx < 16
+//@ requires forall o int64 :: inmap(c.quorumTracker.tracker, o) && o < offset ==> bit16(c.quorumTracker.tracker[o].bits, c.cursorIdx)
+//@ assert at call notifyCommitOffsetAdvanced#0: q.requiredAcks > 0 && popcount16(e.bits) == q.requiredAcks && bit16(e.bits, c.cursorIdx)
+//@ assert at call notifyCommitOffsetAdvanced#0: forall o int64, j int :: inmap(q.tracker, o) && o < offset && 0 <= j && j < 16 && bit16(e.bits, j) ==> bit16(q.tracker[o].bits, j)
+//@ assert at call notifyCommitOffsetAdvanced#0: forall o int64 :: inmap(q.tracker, o) && o < offset ==> popcount16(q.tracker[o].bits) >= popcount16(e.bits)
+//@ assert at call notifyCommitOffsetAdvanced#0: forall o int64 :: inmap(q.tracker, o) ==> o > offset
+//@ ensures qInv(c.quorumTracker)
+//@ ensures c.quorumTracker.commitOffset.v == old(c.quorumTracker.commitOffset.v) || (c.quorumTracker.commitOffset.v == offset && offset > old(c.quorumTracker.commitOffset.v))
+//@ ensures c.quorumTracker.commitOffset.v != old(c.quorumTracker.commitOffset.v) ==> old(inmap(c.quorumTracker.tracker, offset)) && old(popcount16(c.quorumTracker.tracker[offset].bits)) + ite(old(bit16(c.quorumTracker.tracker[offset].bits, c.cursorIdx)), 0, 1) == c.quorumTracker.requiredAcks
+//@ ensures c.quorumTracker.headOffset.v == old(c.quorumTracker.headOffset.v) && c.quorumTracker.cursorIdxGenerator == old(c.quorumTracker.cursorIdxGenerator)
+//@ ensures forall o int64 :: inmap(c.quorumTracker.tracker, o) ==> old(inmap(c.quorumTracker.tracker, o)) && c.quorumTracker.tracker[o] == old(c.quorumTracker.tracker[o])
+//@ ensures forall o int64 :: old(inmap(c.quorumTracker.tracker, o)) && o != offset ==> inmap(c.quorumTracker.tracker, o)
+//@ ensures forall o int64, j int :: inmap(c.quorumTracker.tracker, o) && 0 <= j && j < 16 && (o != offset || j != c.cursorIdx) ==> (bit16(c.quorumTracker.tracker[o].bits, j) <==> old(bit16(c.quorumTracker.tracker[o].bits, j)))
+//@ ensures inmap(c.quorumTracker.tracker, offset) ==> bit16(c.quorumTracker.tracker[offset].bits, c.cursorIdx)
